@@ -339,6 +339,11 @@ def closeOne (acc : State × List (Nat × Ev)) (c : Ctx) : State × List (Nat ×
   let r := wake s1 c.id
   (r.1, acc.2 ++ r.2)
 
+/-- call numbers name blocked calls: a number that still names a parked call is not given to another one (the harness
+    numbers its calls consecutively; an operation breaking this is no part of any history) -/
+def callBusy (s : State) (call : Nat) : Bool :=
+  s.parkedSend.any (fun p => p.call == call) || s.parkedRecv.any (fun p => p.call == call)
+
 def core (s : State) (now : Nat) (op : List String) : List (State × List Ev × List (Nat × Ev)) :=
   match op with
   | ["addpipe", p] =>
@@ -372,6 +377,7 @@ def core (s : State) (now : Nat) (op : List String) : List (State × List Ev × 
     | some c =>
       if s.closed || c.closed then [(s0, [], [(call, Ev.retErr call "closed")])] else
       if c.failNoPeers && s.pipes.isEmpty then [(s0, [], [(call, Ev.retErr call "nopeers")])] else
+      if callBusy s call then [] else
       -- abandon whatever was outstanding on this context
       let s1 := cancel s0 c.id
       let s2 := setCtx { s1 with sendQ := s1.sendQ ++ [c.id] } c.id (fun y => { y with reqID := n, queued := true, sendMsg := some (bytesOf b), sendFor := n, sendAbort := false })
@@ -390,6 +396,7 @@ def core (s : State) (now : Nat) (op : List String) : List (State × List Ev × 
       if s.closed || c.closed then [(s, [], [(call, Ev.retErr call "closed")])] else
       if c.failNoPeers && s.pipes.isEmpty then [(s, [], [(call, Ev.retErr call "nopeers")])] else
       if c.receiveWait || c.reqID == 0 then [(s, [], [(call, Ev.retErr call "protostate")])] else
+      if callBusy s call then [] else
       let s1 := setCtx { s with parkedRecv := s.parkedRecv ++ [{ call := call, ctx := c.id, rid := c.reqID, deadline := if c.recvExpire > 0 then some { id := c.reqID, tmin := s.tprev, tmax := now, period := c.recvExpire } else none }] } c.id (fun y => { y with receiveWait := true })
       let (s2, evs) := wake s1 c.id
       [(s2, [], evs)]
